@@ -20,6 +20,9 @@ CHECKS = {
  'C09': dict(cat='exploration', sec='4/C09', tech='runtime monitoring: repeated / permuted / relocated / in-process / regenerating runs of the real CLI in fresh processes; byte comparison of exit status, normalised diagnostic and written files against a reference run',
    text='Programs built to contain several candidates for every map-ordered decision (and failing programs with several simultaneous faults) are run by a reference process and by k further fresh processes, with permuted/duplicated/wildcard patterns, -cwd, GOMAXPROCS=1, a relocated copy, the in-process API and on top of their own output; every observation must equal the reference byte for byte.',
    note='an order dependence between two candidates escapes k repeats with probability 2^-(k-1); fixed program set plus seeds'),
+ 'C12': dict(cat='exploration', sec='4/C12', tech='runtime monitoring: one probe program per cell of the complete settings precedence table run through the real CLI; observed outcome/emitted effect vs resolution model; sibling-isolation and invalid-placement oracles',
+   text='All 4^3 cells {absent,bare,yes,no} x {CLI,converter,method} of every inheritable boolean and all 3^3 placements of the valued settings are run, alone and next to opposite-valued sibling methods/converters and with siblings sharing a generated sub-method; invalid placements, unknown keys, malformed values and wrapErrors/wrapErrorsUsing conflicts must fail naming where they were written.',
+   note='resolution model from docs/reference/define-settings.md; method-level values are observed only above generated sub-method boundaries'),
  'C13': dict(cat='exploration', sec='4/C13', tech='runtime monitoring: one watched child process of the real CLI per fuzzed input (type grammar, directive grammar+mutation, argv); exit-status/stderr/panic-dump/hang monitor',
    text='Thousands of generated inputs over the exotic part of the Go type grammar, mutated directives at every directive position and random argument vectors are each run in their own CLI process under a watchdog; exit status must be 0 or 1, no Go panic dump, failures carry a diagnostic naming the declaration.',
    note='hang = no termination within 60 s (300x normal); non-compiling generated inputs are dropped before goverter sees them'),
@@ -32,6 +35,9 @@ CHECKS = {
  'C17': dict(cat='fault_enumeration', sec='4/C17', tech='runtime monitoring: real CLI under strace (syscall log of file-system effects) with enumerated faulty-converter subsets, prior output states and injected I/O faults; tree digest before/after',
    text='For multi-package scenarios every subset of converters (all subsets up to 4 converters) is made faulty at directive, signature or conversion stage; a failing run must exit 1 with a diagnostic and perform no mutating syscall below the module tree; fault-free runs must leave exactly the in-process result; help/usage vectors and strace-injected ENOSPC/EACCES faults complete the enumeration.',
    note='strace -ff -y sees all syscalls of the CLI and children; in-process public API result is the byte reference for successful runs'),
+ 'C19': dict(cat='exploration', sec='4/C19', tech='runtime monitoring: generated comment layouts observed by three observers (independent go/parser extractor, goverter public API raw lines, real CLI effect) against the generator ground truth',
+   text='Random comment layouts around converter interfaces, variables blocks, methods and custom functions (line/block comments, tabs, blanks, CRLF, grouped declarations, decoys in detached/trailing/body positions) are generated with known ground truth; ParseDocs raw lines and the CLI effect (name, output path, ignored field, argument roles of custom functions) must agree; wrong-kind markers must fail.',
+   note='marker test is a substring test by specification, so prose containing the literal marker is not generated'),
  'C18': dict(cat='exploration', sec='4/C18', tech='runtime monitoring: AST monitor over every file emitted by real CLI runs (import whitelist from the input IR, declaration kinds)',
    text='Every emitted file of the corpus is parsed: no reflect/unsafe, imports only from the packages the case owns (plus fmt / wrapErrorsUsing package when configured), only converter struct, funcs and init at top level.',
    note='go/parser; allowed import set known from the generator IR'),
